@@ -25,6 +25,9 @@ MANIFEST = {
 
 REQUIRED = [
     "KV.C16.prefixOrder_lawful", "KV.C16.suffixOrder_lawful", "KV.C16.contextOrder_lawful", "KV.C16.intOrder_lawful",
+    "KV.C16.offsets_roundtrip", "KV.C16.storeRuns_roundtrip", "KV.C16.extSort_isSome", "KV.C16.merge_sorted_perm",
+    "KV.C16.extSort_sorted", "KV.C16.extSort_perm", "KV.C16.extSort_sum", "KV.C16.extSort_combine_totals",
+    "KV.C16.extSort_nodup", "KV.C16.extSort_unique", "KV.C16.extSort_eq_spec",
 ]
 
 BOOST = ["-Wl,--no-as-needed", "-lboost_thread", "-lboost_system"]
@@ -272,7 +275,7 @@ def run_batch(hexe, dexe, cases, wdir, tag, dump_limit=4000):
         c["_data"] = data if c["n"] <= dump_limit else None
         lines.append(op_line(c, p, c["_out"]))
     with ThreadPoolExecutor(2) as ex:
-        fh = ex.submit(stream.run_lines, hexe, lines, 1500)
+        fh = ex.submit(stream.run_lines, hexe, lines, 1500, {"C16_TMPDIR": wdir})
         fd = ex.submit(stream.run_lines, dexe, lines, 1500)
         rc1, o1, e1 = fh.result()
         rc2, o2, e2 = fd.result()
@@ -439,7 +442,7 @@ def sort_stream(ctx, hexe, dexe, n_cases, wdir):
     return found
 
 
-def offsets_stream(ctx, hexe, dexe, n_cases):
+def offsets_stream(ctx, hexe, dexe, n_cases, wdir):
     found = False
     ops, want = [], []
     for i in range(n_cases):
@@ -463,7 +466,7 @@ def offsets_stream(ctx, hexe, dexe, n_cases):
                                                                   ",".join(map(str, offs)), t))
         ctx.count(("offsets", tuple(ls)), nontrivial=len(nz) >= 2)
         ctx.hist("offsets.len", min(len(ls), 50) // 10 * 10)
-    (rc1, o1, e1), (rc2, o2, e2) = stream.both(hexe, dexe, ops)
+    (rc1, o1, e1), (rc2, o2, e2) = stream.both(hexe, dexe, ops, env={"C16_TMPDIR": wdir})
     if rc1 != 0 or rc2 != 0 or len(o1) != len(ops) or len(o2) != len(ops):
         ctx.violation("Offsets harness/driver died rc=%s/%s: %s" % (rc1, rc2, (e1 + e2)[-300:]),
                       {"stream": "offsets", "ops": ops[:5]}, no_input=True)
@@ -492,7 +495,7 @@ def run(ctx):
     try:
         n = 260 if ctx.tier == "quick" else 2600
         found = sort_stream(ctx, hexe, dexe, n, wdir)
-        found = offsets_stream(ctx, hexe, dexe, 200 if ctx.tier == "quick" else 3000) or found
+        found = offsets_stream(ctx, hexe, dexe, 200 if ctx.tier == "quick" else 3000, wdir) or found
     finally:
         shutil.rmtree(wdir, ignore_errors=True)
     ctx.cov["rule"] = ("sort: one case = (record file, layout, order, combiner, chain blocks, SortConfig, lazy memory, mode); "
